@@ -44,9 +44,30 @@ func ilist(xs []string) string {
 	return "(" + strings.Join(parts, " ++ ") + ")%list"
 }
 
+// innerRun finds a run of at least 512 equal printable bytes inside s
+func innerRun(s string) (int, int, bool) {
+	if len(s) < 1024 {
+		return 0, 0, false
+	}
+	for i := 0; i < len(s); {
+		j := i
+		for j < len(s) && s[j] == s[i] {
+			j++
+		}
+		if j-i >= 512 && s[i] >= 0x20 && s[i] < 0x7f && s[i] != '"' && s[i] != '\\' {
+			return i, j, true
+		}
+		i = j
+	}
+	return 0, 0, false
+}
+
 func cstr(s Str) string {
 	if pre, c, n, ok := runSuffix(string(s)); ok {
 		return fmt.Sprintf("(%s ++ rep \"%c\" %d%%N)%%string", cstr(Str(pre)), c, n)
+	}
+	if i, j, ok := innerRun(string(s)); ok {
+		return fmt.Sprintf("(%s ++ rep \"%c\" %d%%N ++ %s)%%string", cstr(s[:i]), s[i], j-i, cstr(s[j:]))
 	}
 	if len(s) == 0 {
 		return `""`
